@@ -273,13 +273,22 @@ def gen_header(rng, tier):
 
 
 def _reported_pairs(msgs):
+    """(line type, field name) pairs in today's wording of the report; None when the wording is another one"""
     import re
 
-    out = set()
+    out, seen = set(), False
     for m in msgs:
-        if "don't seem to be declared" in m:
+        if "declared in the header:" in m:
+            seen = True
             out |= {(a, b) for a, b in re.findall(r"#([HVR]) ([A-Za-z_]+)", m.split("declared in the header:")[1])}
-    return sorted(map(list, out))
+    return sorted(map(list, out)) if seen else None
+
+
+def _reported_names(msgs, names):
+    """the field names a report mentions, however it is worded"""
+    import re
+
+    return sorted({n for n in names for m in msgs if re.search(r"(?<![\w])" + re.escape(n) + r"(?![\w])", m)})
 
 
 def impl_header(case):
@@ -304,12 +313,26 @@ def impl_header(case):
         h2 = Haplotypes(_dir / "hdr.hap", haplotype=K[rd["kw"][0]], variant=K[rd["kw"][1]], repeat=K[rd["kw"][2]], log=cap2.logger)
         h2.read()
     onread = [m for l, m in cap2.records if l == "WARNING"]
-    return {"reported": bool(_reported_pairs(soft)), "missing": _reported_pairs(soft), "raises": hard is not None and "don't seem to be declared" in hard, "missing_in_error": _reported_pairs([hard] if hard else []), "missing_on_read": _reported_pairs(onread)}
+    names = sorted({nm for t in "HVR" for nm in rd["names"][t]})
+    hardl = [hard] if hard else []
+    return {"reported": bool(_reported_names(soft, names)), "raises": bool(_reported_names(hardl, names)), "names": _reported_names(soft, names), "names_in_error": _reported_names(hardl, names), "names_on_read": _reported_names(onread, names),
+            "missing": _reported_pairs(soft), "missing_in_error": _reported_pairs(hardl), "missing_on_read": _reported_pairs(onread)}
 
 
 def model_obs_header(case, resp):
     m = sorted(resp["missing"])
-    return {"reported": resp["reported"], "missing": m, "raises": resp["reported"], "missing_in_error": m, "missing_on_read": m}
+    nm = sorted({x[1] for x in m})
+    return {"reported": resp["reported"], "raises": resp["reported"], "names": nm, "names_in_error": nm, "names_on_read": nm, "missing": m, "missing_in_error": m, "missing_on_read": m}
+
+
+def equal_header(a, b):
+    if "error" in a:
+        return False
+    for k in ("reported", "raises", "names", "names_in_error", "names_on_read"):
+        if a[k] != b[k]:
+            return False
+    # the exact (line type, name) pairs only where the report is worded as it is today (nothing is reported → nothing to read)
+    return all(a[k] is None or a[k] == b[k] for k in ("missing", "missing_in_error", "missing_on_read"))
 
 
 def oracle_header(case, obs):
@@ -319,8 +342,12 @@ def oracle_header(case, obs):
     req = HDR_READERS[case["reader"]]["names"]
     declared = {(l[0][1], l[1]) for l in case["lines"] if len(l) >= 4 and l[0] in ("#H", "#V", "#R")}
     want = sorted([t, nm] for t in "HVR" for nm in req[t] if (t, nm) not in declared)
+    wn = sorted({x[1] for x in want})
+    for k in ("names", "names_in_error", "names_on_read"):
+        if obs[k] != wn:
+            return f"{k}: the report mentions the fields {obs[k]}, but the header leaves {want} undeclared (reader requires {req})"
     for k in ("missing", "missing_in_error", "missing_on_read"):
-        if obs[k] != want:
+        if obs[k] is not None and obs[k] != want:
             return f"{k}: reported {obs[k]}, but the header leaves {want} undeclared (reader requires {req})"
     if obs["reported"] != bool(want) or obs["raises"] != bool(want):
         return f"reported={obs['reported']} raises={obs['raises']} although {want} are undeclared"
@@ -362,7 +389,15 @@ def impl_versions(case):
             raised = None
         except Exception as e:  # noqa
             raised = type(e).__name__
-    return {"raised": raised, "errors": sum(1 for l, _ in cap.records if l == "ERROR"), "warnings": sum(1 for l, _ in cap.records if l == "WARNING"), "unsupported_reported": any("only works with" in m for _, m in cap.records), "loaded": len(h.data or {})}
+    # "reported" however it is worded: the file draws more warnings / errors than the same file declaring the supported version
+    with open(f, "w") as o:
+        o.write("#\tversion\t0.2.0\n")
+        o.write("H\t1\t10\t20\tH1\nV\tH1\t10\t11\tv1\tA\n")
+    with C.capture_logs() as cap0:
+        Haplotypes(f, log=cap0.logger).read()
+    base = sum(1 for l, _ in cap0.records if l in ("ERROR", "WARNING"))
+    n = sum(1 for l, _ in cap.records if l in ("ERROR", "WARNING"))
+    return {"raised": raised, "errors": sum(1 for l, _ in cap.records if l == "ERROR"), "warnings": sum(1 for l, _ in cap.records if l == "WARNING"), "unsupported_reported": n > base, "loaded": len(h.data or {})}
 
 
 def oracle_versions(case, obs):
@@ -374,8 +409,6 @@ def oracle_versions(case, obs):
     o = tuple(map(int, v.split(".")))
     unsupported = o[0] != 0 or o[1] > 2
     reported = obs["raised"] is not None or obs["unsupported_reported"]
-    if not unsupported and obs["unsupported_reported"]:
-        return f"supported version {v} was reported as unsupported"
     if unsupported and not reported:
         return f"version {v} (unsupported major / newer minor) was read without being reported"
     if not unsupported and obs["raised"] is not None:
@@ -409,12 +442,13 @@ CHECK = Check(
             impl=impl_header,
             model_req=lambda c: {"op": "hapHeader", **HDR_READERS[c["reader"]]["names"], "lines": c["lines"]},
             model_obs=model_obs_header,
+            equal=equal_header,
             oracle=oracle_header,
             describe=describe_header,
             setup=setup,
             teardown=teardown,
-            nontrivial=lambda c, o: C.jdump(c) if isinstance(o, dict) and o.get("missing") else None,
-            rule="seeded random headers for seven reader configurations (incl. Haplotype and Repeat classes that both require 'beta', as simphenotype's do): per line type and name of a pool every declaration present or absent (complete headers, no header line at all, exactly one required declaration dropped, random subsets, a required name declared only for the line types that do not require it), plus order lines, metadata, duplicated declarations and lines that merely look like declarations; check_header(softly=True) warnings, check_header(softly=False) ValueError and the warnings of read() are parsed for the '#t name' pairs and compared with the Lean bookkeeping and with required-minus-declared computed from the generated content",
+            nontrivial=lambda c, o: C.jdump(c) if isinstance(o, dict) and o.get("names") else None,
+            rule="seeded random headers for seven reader configurations (incl. Haplotype and Repeat classes that both require 'beta', as simphenotype's do): per line type and name of a pool every declaration present or absent (complete headers, no header line at all, exactly one required declaration dropped, random subsets, a required name declared only for the line types that do not require it), plus order lines, metadata, duplicated declarations and lines that merely look like declarations; check_header(softly=True) warnings, check_header(softly=False) ValueError and the warnings of read() are read for the field names they mention (and, where the report is worded as today, for the '#t name' pairs) and compared with the Lean bookkeeping and with required-minus-declared computed from the generated content",
         ),
         Section(
             name="version_strings",
